@@ -332,8 +332,11 @@ func c12run(w *report.W) {
 		for _, pos := range c12positions {
 			for _, perm := range c12perms {
 				for _, rep := range []string{"", "parsed"} {
-					if rep == "parsed" && !w.Thorough() && pieces[s] > 2 {
-						continue // quick: the parsed representation for strings of <=2 pieces
+					if rep == "parsed" && (pieces[s] > 3 || (!w.Thorough() && pieces[s] > 2)) {
+						continue // the parsed representation for strings of <=2 (quick) / <=3 (thorough) pieces
+					}
+					if pieces[s] > 3 && (perm.Name == "self-reference" || perm.Name == "seven-dimensions" || strings.Contains(pos, "+") || strings.Contains(pos, "smap") || pos == "plugin-source-noconfig") {
+						continue // four-piece strings (thorough): the single positions and the five basic permutations
 					}
 					c := c12case{s, pos, perm, rep}
 					key := s + "\x00" + pos + "\x00" + perm.Name + "\x00" + rep
@@ -433,7 +436,7 @@ func init() {
 		Rule: "every concatenation of <=3 (quick) / <=4 (thorough) pieces over a 25-piece alphabet (tokens with and without inner whitespace, dotted / dashed / dot-leading dimension names, unknown dimensions, " +
 			"near misses, brace fragments, plain text) x 27 positions of a command step (the same string at a key and a value of one mapping for three mappings; 12 single positions in scope: command, label, plugin source, config keys/values/nested, env values, unknown-field keys/values/nested/list; " +
 			"8 out of scope: env names, key, matrix setup/with/extra, signature value/field, cache) x 7 permutations (seven dimensions, anonymous, named with . - _, token-shaped values that name each other, dot-leading names, dash/dot names, values that contain their own token) x 2 representations of the step (built by hand with plain Go maps; its JSON decoded by CommandStep.UnmarshalJSON, " +
-			"whose nested unknown mappings are ordered maps - quick: strings of <=2 pieces); " +
+			"whose nested unknown mappings are ordered maps - strings of <=2 (quick) / <=3 (thorough) pieces; four-piece strings: single positions and the five basic permutations only); " +
 			"InterpolateMatrixPermutation on the real code vs. a hand-written single-pass scanner mapped over the step's JSON before the call; unknown dimension in scope => error; empty permutation => deep " +
 			"snapshot unchanged; every iteration order of the library's map loops for one-piece strings at map-backed positions. Non-trivial = the string contains a token (replaced or unknown).",
 		Assumptions: []string{
